@@ -71,6 +71,9 @@ RULE = (
     "pairs; distinct by SHA-1 of the case"
     ' Rdataset objects handed to replace() are mutated by their owner after the transaction ends.'
 )
+RULE += (
+    " Rounds 8-10 added: replacement writers (commit_repl); max_versions / policy changes while a writer is open."
+)
 ASSUMPTIONS = [
     "content model vlib/ref/zone_model.py and the canonical RDATA form (vlib/zoneutil.py) are the "
     "trusted base; zone._versions is read white-box and cross-checked through reader(id=k)",
